@@ -32,7 +32,9 @@ Avail == Released(sc, c) - c.inRead
 TRead ==
   /\ IsEvent("r") /\ c.pc \in ReadPcs
   /\ LET n == TLog[l].n IN
-     /\ n >= 1 /\ n <= ReadCap(c) /\ n <= Avail
+     \* during the preamble the room offered depends on how many unparsed bytes the implementation keeps (its choice);
+     \* the hard bound is the buffer.  In the stream phases the buffer is compacted before every read.
+     /\ n >= 1 /\ n <= (IF c.pc = "PR_read" THEN B ELSE ReadCap(c)) /\ n <= Avail
      /\ c' = Run(sc, AfterRead(sc, c, n))
   /\ UNCHANGED sc
 TRead0 ==
